@@ -125,6 +125,11 @@ class Model:
         if isinstance(v, Obj):
             if attr in v.attrs:
                 return v.attrs[attr]
+            if "__fields__" in v.attrs and attr in ("_asdict", "_fields"):
+                # a NamedTuple instance: its fields in declaration order
+                if attr == "_fields":
+                    return PyTuple(list(v.attrs["__fields__"]))
+                return ("ntasdict", v)
             if "__frame__" in v.attrs:
                 return ("at", v.attrs["__row_of__"], v.attrs["__frame__"].col(attr))
             if "__row_of__" in v.attrs:
@@ -505,6 +510,8 @@ class Model:
             o.attrs.update(kw)
             o.attrs["__fields__"] = list(callee[2])
             return o
+        if isinstance(callee, tuple) and len(callee) == 2 and callee[0] == "ntasdict" and isinstance(callee[1], Obj) and not pos and not kw:
+            return {f_: callee[1].attrs[f_] for f_ in callee[1].attrs["__fields__"]}
         if isinstance(callee, tuple) and callee and callee[0] == "method":
             return self.ops.method(callee[1], callee[2], pos, kw, node)
         if isinstance(callee, ExtMod):
